@@ -56,11 +56,9 @@ class GreedyAllocator:
         self.current_allocs = [(start_addr, lr) for start_addr, lr in self.current_allocs if lr != lr_to_dealloc]
 
     def allocate_live_ranges(self, alignment):
-        lrs = set()
-        for lr in self.live_ranges.lrs:
-            lrs.add((lr.start_time, -lr.end_time, lr))
-
-        lrs = sorted(lrs)
+        # de-duplicated in graph order (not a set): live ranges that compare equal - same times, size and name - keep
+        # a deterministic order through the stable sort below
+        lrs = sorted(dict.fromkeys((lr.start_time, -lr.end_time, lr) for lr in self.live_ranges.lrs))
 
         for curr_time, _, new_lr in lrs:
             for _, lr in list(self.current_allocs):
